@@ -396,8 +396,87 @@ def r196(ctx, fx):
                             f.path.rsplit("::", 1)[-1], " / ".join(m.rsplit("::", 1)[-1] for m in miss)), f.where)
 
 
+def r197(ctx, fx):
+    rid = ctx.rule("R19.7", "one source line can stand for several address ranges (a line of a macro invoked twice, of a loop body, of a file imported twice) and "
+                   "setBreakpoints hands the machine one MachineBreakpoint per range: the machine keeps all of them — a list, or a map whose key contains the range; a map "
+                   "keyed by file and line keeps the last range of a line only, and the machine runs through the other copies without stopping")
+    fns = [f for f in fx.all_fns("mos") if f.d.get("hir") and "::tests::" not in f.path and f.path.rstrip(">").endswith("::set_breakpoints") and "debugger::adapters" in f.path]
+    if not fns:
+        ctx.fail_closed(rid, "no set_breakpoints of a machine adapter found")
+        return
+    n = 0
+    for f in sorted(fns, key=lambda f: f.path):
+        stores = []
+        for x in lib.hwalk(f.hir["body"]):
+            if x.get("k") == "mcall" and x.get("name") in ("insert", "extend", "push", "entry", "append"):
+                ty = str(lib.strip(x["recv"]).get("ty", "")) + " " + str(lib.strip(x["recv"]).get("aty", ""))
+                if "MachineBreakpoint" in ty:
+                    stores.append((x, ty))
+        key = "%s|keeps-every-range" % f.path
+        ctx.inst(rid, key, sample={"fn": f.path, "stores": [(x.get("name"), ty[:100]) for x, ty in stores]})
+        for x, ty in stores:
+            n += 1
+            if "Map<" in ty:
+                k0 = ty.split("Map<", 1)[1]
+                k0 = k0.split("MachineBreakpoint", 1)[0].rsplit(", ", 1)[0]
+                if "Range" not in k0 and "ProgramCounter" not in k0:
+                    ctx.finding(rid, key, "%s keeps the breakpoints in a map keyed by `%s`: of the address ranges one source line stands for (a macro invoked twice, a "
+                                "loop, a file imported twice) only the last one stays, the machine executes the others without stopping" % (
+                                    f.path.rstrip(">").rsplit("::", 1)[-1], k0.strip(" ,")[:60]), "%s:%s" % (f.file, x.get("ln")))
+    if n < 1:
+        ctx.fail_closed(rid, "no store of MachineBreakpoints found in a set_breakpoints")
+
+
+def r198(ctx, fx):
+    rid = ctx.rule("R19.8", "the machine thread of the test runner evaluates assertions while it executes, holding the running state; a request holds the adapter and then "
+                   "asks for the running state. So nothing the machine thread evaluates may take the adapter's lock: the debug session registers its adapter-backed "
+                   "`ram()` only for a machine without a program of its own (`adapter.codegen()` is None) — the test runner keeps the `ram()` that reads its memory directly")
+    cm = fx.fn("mos::debugger::DebugSession::create_machine")
+    if cm is None or not cm.d.get("hir"):
+        ctx.fail_closed(rid, "DebugSession::create_machine not found")
+        return
+    from .c11 import _anc_walk
+    body = cm.hir["body"]
+    own = set()
+    for n in lib.hwalk(body):
+        if n.get("k") in ("let", "letx") and "init" in n and any(y.get("k") == "mcall" and y.get("name") == "codegen" and
+                                                                 "MachineAdapter" in str(lib.strip(y["recv"]).get("ty", "")) + str(lib.strip(y["recv"]).get("aty", ""))
+                                                                 for y in lib.hwalk(n["init"])):
+            own |= {q["name"] for q in lib.hwalk(n["pat"]) if q.get("k") == "bind"}
+    sites = 0
+    for x, anc in _anc_walk(body):
+        if not (x.get("k") == "call" and str(lib.hcallee(x) or "").endswith("ensure_ram_fn")):
+            continue
+        sites += 1
+        guarded = False
+        for p_, key in anc:
+            if p_.get("k") == "if" and key == "else":
+                c = lib.strip(p_["cond"])
+                if c.get("k") == "letx" and "Option::Some" in repr(lib.pat_variants(c["pat"])) and (
+                        lib.hpath(lib.strip(c["init"])) in own or any(y.get("k") == "mcall" and y.get("name") == "codegen" for y in lib.hwalk(c["init"]))):
+                    guarded = True
+            if p_.get("k") == "match" and key == "arms":
+                pass
+        # match form: the arm that holds the call has the pattern None
+        for p_, key in anc:
+            if p_.get("k") == "match" and (lib.hpath(lib.strip(p_["scrut"])) in own or any(y.get("k") == "mcall" and y.get("name") == "codegen" for y in lib.hwalk(p_["scrut"]))):
+                for a in p_["arms"]:
+                    if any(y is x for y in lib.hwalk(a["body"])) and any(str(v).endswith("Option::None") for v in lib.pat_variants(a["pat"])):
+                        guarded = True
+        k = "create_machine|adapter-backed-ram#%d" % sites
+        ctx.inst(rid, k, sample={"line": x.get("ln"), "only_without_own_program": guarded})
+        if not guarded:
+            ctx.finding(rid, k, "create_machine registers the `ram()` that goes through the adapter's lock for every machine, the test runner too: a running test that "
+                        "asserts on `ram(..)` and a `pause` (a step, a look at the running state) wait for each other for ever — the request is never answered and "
+                        "the language server does not exit", "%s:%s" % (cm.file, x.get("ln")))
+    if sites < 1:
+        ctx.fail_closed(rid, "create_machine does not register a `ram()` (ensure_ram_fn) any more")
+
+
 def run(ctx):
     fx = ctx.facts
+    r197(ctx, fx)
+    r198(ctx, fx)
     r194(ctx, fx)
     r195(ctx, fx)
     r196(ctx, fx)
